@@ -166,10 +166,8 @@ def classify(i, status, detail) -> str:
     return ""
 
 
-def check_defaults(i: int, snake: bool) -> bool:
-    """
-    post: _
-    """
+def _defaults(i, snake) -> bool:
+    # NOTE: no contract here - CrossHair enforces the contracts of *called* functions and silently drops the caller's path
     k = pick(i, len(CASES))
     sn = True if snake else False
     with NoTracing():
@@ -195,10 +193,10 @@ def twin_defaults_object_reached(i: int, snake: bool) -> bool:
 
 
 def parts_source(nparts: int = 16) -> str:
-    out = ["from harness.C06_defaults import CASES, check_defaults", "from harness._h import pick", ""]
+    out = ["from harness.C06_defaults import CASES, _defaults", "from harness._h import pick", ""]
     n = len(CASES)
     for p in range(nparts):
         lo, hi = p * n // nparts, (p + 1) * n // nparts
         out.append(f"def check_defaults_p{p}(j: int, snake: bool) -> bool:\n    \"\"\"\n    post: _\n    \"\"\"\n"
-                   f"    return check_defaults({lo} + pick(j, {hi - lo}), snake)\n")
+                   f"    return _defaults({lo} + pick(j, {hi - lo}), snake)\n")
     return "\n".join(out)
